@@ -15,7 +15,19 @@ use celestia_types::nmt::Namespace;
 use celestia_types::{Blob, Share};
 use lv_core::*;
 use serde_json::{Value, json};
+use std::sync::OnceLock;
 use std::sync::atomic::{AtomicU64, Ordering};
+use std::time::{Duration, Instant};
+
+/// Internal wall cap: cases reached after the deadline are skipped and reported as a cap.
+static DEADLINE: OnceLock<Instant> = OnceLock::new();
+fn past_deadline(rep: &mut Report) -> bool {
+    if DEADLINE.get().is_some_and(|d| Instant::now() > *d) {
+        rep.cap_hit("wall cap: remaining cases skipped");
+        return true;
+    }
+    false
+}
 
 // ------------------------------------------------------------------------ part A
 
@@ -44,6 +56,9 @@ fn boundary(len: usize) -> bool {
 }
 
 fn eval_single(c: &Single, seed: u64, rep: &mut Report) {
+    if past_deadline(rep) {
+        return;
+    }
     let key = fnv64(format!("A/{}/{}/{}/{}/{}", c.len, c.sv, c.ns, c.app, c.payload).as_bytes());
     let case = || single_json(c, seed);
     let nsb = ns_bytes(c.ns, seed);
@@ -241,6 +256,9 @@ fn seq_env(app_v: u64, seed: u64) -> Result<SeqEnv, String> {
 
 fn eval_seq(env: &SeqEnv, seq: &[usize], gaps: &[usize], seed: u64, rep: &mut Report, nontrivial_ctr: &AtomicU64) {
     debug_assert_eq!(gaps.len(), seq.len() + 1);
+    if past_deadline(rep) {
+        return;
+    }
     let case = || json!({"part": "sequence", "app": env.app, "seq": seq, "gaps": gaps.iter().map(|g| FILLERS[*g]).collect::<Vec<_>>(), "seed": seed});
     let mut all: Vec<&Share> = vec![];
     for (i, g) in gaps.iter().enumerate() {
@@ -329,6 +347,7 @@ fn main() {
         rep
     } else {
         let seed = ctx.seed;
+        let _ = DEADLINE.set(ctx.start + Duration::from_secs(ctx.tier.pick(600, 2400)));
         // part A
         let cases = single_cases(max_len);
         let n_a = cases.len() as u64;
